@@ -13,6 +13,8 @@ def showBucket (counting : Bool) (b : List CBin) : String :=
 def ckObs (c : Cuckoo) : List (String × String) :=
   [("count", pyInt c.count), ("cap", toString c.cap),
    ("table", "/".intercalate (c.buckets.map (showBucket c.counting))),
+   ("fps", "/".intercalate (c.buckets.map fun b => ".".intercalate (b.map fun bin => toString bin.1))),
+   ("zeros", toString ((c.buckets.map fun b => (b.filter fun bin => bin.2 == 0).length).sum)),
    ("geom", s!"{c.b},{c.maxSwaps}"), ("fpbits", toString c.fpBits)] ++ (if c.counting then [("unique", pyInt c.unique)] else [])
 
 def ckHash (seed : Int) (key : Key) : Nat := fnv1a64 key seed
